@@ -360,7 +360,9 @@ func ruleR01d(c *Check, rule string) {
 // through a loop that waits on every task and leaves on error.
 func waitAllObligation(c *Check, rule string, fn *ssa.Function, submits []ssa.CallInstruction) {
 	key := "wait-all-tasks/" + c.P.FuncName(fn)
-	waits := engine.Calls(fn, func(s ssa.CallInstruction) bool { return strings.HasSuffix(engine.CalleeName(s), ".Wait") && s.Common().IsInvoke() })
+	waits := engine.Calls(fn, func(s ssa.CallInstruction) bool {
+		return strings.HasSuffix(engine.CalleeName(s), ".Wait") && s.Common().IsInvoke()
+	})
 	if len(waits) == 0 {
 		c.Bad(rule, key, "tasks are submitted but never waited for", c.P.InstrPos(submits[0]))
 		return
@@ -439,6 +441,26 @@ func dirWriteOrder(c *Check, rule string) {
 			}
 		}
 		c.Require(bad == "", rule, key, "the tree blob is written only after the file-blob upload returned nil", bad, c.P.InstrPos(direct[0]))
+		// the upload helper receives exactly the upload list the tree builder produced
+		for _, hp := range helpers {
+			for _, a := range hp.Common().Args {
+				sl, ok := a.Type().Underlying().(*types.Slice)
+				if !ok || engine.NamedOf(sl.Elem()) == nil || !engine.IsFirstParty(engine.NamedOf(sl.Elem()).Obj().Pkg().Path()) {
+					continue
+				}
+				producers := map[ssa.CallInstruction]int{}
+				for _, s := range engine.SitesIn(fn) {
+					res := s.Common().Signature().Results()
+					for i := 0; i < res.Len(); i++ {
+						if types.Identical(res.At(i).Type(), a.Type()) {
+							producers[s] = i
+						}
+					}
+				}
+				ok2 := len(producers) > 0 && engine.OriginsAllFromCall(a, producers, false)
+				c.Require(ok2, rule, "all-blobs-uploaded/"+c.P.FuncName(fn), "the upload helper is given exactly the list of files the tree builder collected", "the list of files to upload is replaced or emptied on some path before the upload: the tree (and the result naming it) can be stored while file blobs it references were never uploaded to this backend", c.P.InstrPos(hp))
+			}
+		}
 		// record returned only after the tree write succeeded
 		isSuccess := func(in ssa.Instruction) bool {
 			r, ok := in.(*ssa.Return)
